@@ -15,6 +15,11 @@ def stepC09 : List String → String
   | ["b2c", n] => match int? n with
       | some n => natToHex (bigToCompact n)
       | none => "bad-op"
+  | ["rt", c] => match hexNat? c with
+      | some c => if c < 2 ^ 32 then
+          natToHex (bigToCompact (compactToBig c)) ++ (if Canonical c then " canon" else " non")
+        else "bad-op"
+      | none => "bad-op"
   | "pow" :: bits :: limit :: h :: _ => match hexNat? bits, int? limit, int? h with
       | some b, some l, some h => fmtPow (checkPoW b l h)
       | _, _, _ => "bad-op"
